@@ -134,7 +134,55 @@ def parts(tier):
     return [Part("reset_after_blowup", enumerate=_blowup_cases, timeout=120, exhaustive=True),
             Part("reset_fd_jacobian", enumerate=_fd_cases, timeout=300, exhaustive=True),
             Part("history", strategy=_history(), examples=300 if q else 6000, timeout=600),
-            Part("split", strategy=_split(), examples=300 if q else 6000, timeout=300)]
+            Part("split", strategy=_split(), examples=300 if q else 6000, timeout=300),
+            Part("neighbours", enumerate=_neighbour_cases, timeout=120, exhaustive=True)]
+
+
+def _neighbour_cases():
+    """two systems built side by side WITHOUT a constants argument; a constant is added to one of them in place
+    (system.constants['k'] = ...): the other one, and any system built afterwards, must not see it"""
+    for method in ("RK4Solver", "RK45CKSolver", "ImplicitMidpoint", "SymplecticEulerSolver"):
+        for how in ("default", "empty_dict_each", "shared_dict_object"):
+            for k in (5.0, -2.0):
+                yield dict(part="neighbours", method=method, how=how, k=k)
+
+
+def _check_neighbours(case):
+    import desolver as de
+    method = case["method"]
+    attrs = dict(method=method, how=case["how"])
+
+    def rhs(t, y, k=1.0, **kw):
+        return np.array([y[1], -k * y[0]])
+    shared = {}
+
+    def build():
+        kw = {}
+        if case["how"] == "empty_dict_each":
+            kw["constants"] = {}
+        elif case["how"] == "shared_dict_object":
+            kw["constants"] = shared          # (the caller's own choice: then the systems do share it - no verdict, a control)
+        s_ = de.OdeSystem(rhs, y0=np.array([1.0, 0.0]), t=(0.0, 1.0), dt=0.125, rtol=1e-8, atol=1e-8, **kw)
+        s_.method = M.get(method)
+        return s_
+    a, b = build(), build()
+    ref = build()
+    ref.integrate()
+    want = np.asarray(ref.y[-1]).copy()
+    a.constants["k"] = case["k"]
+    c = build()                                # built AFTER the constant was added to `a`
+    viols = []
+    labels = ["neighbours:" + case["how"], "method0:" + method]
+    if case["how"] != "shared_dict_object":
+        for name, s_ in (("a system built before", b), ("a system built afterwards", c)):
+            if "k" in s_.constants:
+                viols.append(V("constants_shared", "{}: system.constants['k'] = {} on one system shows up in {} ({} constants: {})".format(method, case["k"], name, case["how"], dict(s_.constants)), "shared:" + case["how"], **attrs))
+                break
+            s_.integrate()
+            if not np.array_equal(np.asarray(s_.y[-1]), want):
+                viols.append(V("constants_shared", "{}: {} integrates to {} instead of {} after a constant was added to ANOTHER system".format(method, name, np.asarray(s_.y[-1]).tolist(), want.tolist()), "shared:" + case["how"], **attrs))
+                break
+    return viols, dict(nontrivial=case["how"] == "default", labels=labels)
 
 
 # --------------------------------------------------------------------------------------------------
@@ -513,6 +561,8 @@ def _check_fd(case):
 def check(case):
     if case["part"] == "reset_fd_jacobian":
         return _check_fd(case)
+    if case["part"] == "neighbours":
+        return _check_neighbours(case)
     if case["part"] == "reset_after_blowup":
         return _check_blowup(case)
     return _check_history(case) if case["part"] == "history" else _check_split(case)
